@@ -5,6 +5,7 @@ package c20
 import (
 	"bytes"
 	"fmt"
+	"math"
 	"sort"
 	"strconv"
 	"strings"
@@ -295,13 +296,13 @@ var docLines = map[string]string{
 }
 
 func rendererFor(cs []comp, kind string, builtinPrio int) string {
-	best, bestPrio := "", 1<<30
+	best, bestPrio, found := "", 0, false
 	if builtinPrio > 0 {
-		best, bestPrio = "builtin", builtinPrio
+		best, bestPrio, found = "builtin", builtinPrio, true
 	}
 	for _, c := range cs {
-		if c.typ == "nr" && c.trigger == kind && c.prio < bestPrio {
-			best, bestPrio = c.name, c.prio
+		if c.typ == "nr" && c.trigger == kind && (!found || c.prio < bestPrio) {
+			best, bestPrio, found = c.name, c.prio, true
 		}
 	}
 	return best
@@ -582,12 +583,14 @@ func TestPriority(t *testing.T) {
 		prio := func(around int) int {
 			for {
 				var p int
-				if around > 0 && rapid.Bool().Draw(t, "near") {
+				if rapid.IntRange(0, 11).Draw(t, "extreme") == 0 {
+					p = rapid.SampledFrom([]int{math.MinInt, math.MinInt + 1, math.MaxInt, math.MaxInt - 1, -1, -1000001, math.MinInt32, math.MaxInt32, 1 << 40}).Draw(t, "xp")
+				} else if around > 0 && rapid.Bool().Draw(t, "near") {
 					p = around + rapid.IntRange(-99, 99).Draw(t, "dp")
 				} else {
 					p = rapid.IntRange(1, 1500).Draw(t, "p")
 				}
-				if p > 0 && p%100 != 0 && !used[p] {
+				if p%100 != 0 && !used[p] {
 					used[p] = true
 					return p
 				}
